@@ -1,8 +1,8 @@
 #!/bin/bash
 # usage: tools/confirm_suite.sh <Cxx> <A|B>  - runs the unedited 475-test suite on a scratch copy of /repo HEAD + the patch
-P="$1"; X="$2"; D=/tmp/mut/suite_${P}_$X
+P="$1"; X="$2"; D=${MUT_DIR:-/tmp/mut}/suite_${P}_$X
 rm -rf $D; mkdir -p $D && git -C /repo archive --format=tar HEAD | tar -x -C $D
-cd $D && git init -q . 2>/dev/null; git apply /tmp/mut/$P/patch_$X.diff 2>/dev/null || patch -p1 -s < /tmp/mut/$P/patch_$X.diff || { echo "$P-$X PATCH FAILED" > /tmp/mut/$P/suite_$X.txt; exit 2; }
-env -u WELL_ID_DLISWRITER_VERIF PYTHONPATH=$D/src /venv/bin/python -m pytest -q -p no:cacheprovider --timeout=900 src/tests 2>&1 | tail -1 > /tmp/mut/$P/suite_$X.txt
+cd $D && git init -q . 2>/dev/null; git apply ${MUT_DIR:-/tmp/mut}/$P/patch_$X.diff 2>/dev/null || patch -p1 -s < ${MUT_DIR:-/tmp/mut}/$P/patch_$X.diff || { echo "$P-$X PATCH FAILED" > ${MUT_DIR:-/tmp/mut}/$P/suite_$X.txt; exit 2; }
+env -u WELL_ID_DLISWRITER_VERIF PYTHONPATH=$D/src /venv/bin/python -m pytest -q -p no:cacheprovider --timeout=900 src/tests 2>&1 | tail -1 > ${MUT_DIR:-/tmp/mut}/$P/suite_$X.txt
 cd /; rm -rf $D
-cat /tmp/mut/$P/suite_$X.txt
+cat ${MUT_DIR:-/tmp/mut}/$P/suite_$X.txt
